@@ -454,6 +454,7 @@ func genC07(t *rapid.T) *C07Case {
 			ctl := rapid.SampledFrom([]string{"requestBodyLimit=%d", "responseBodyLimit=%d", "requestBodyLimit=%d", "requestBodyAccess=Off", "responseBodyAccess=Off",
 				"requestBodyProcessor=JSON", "requestBodyProcessor=XML", "responseBodyProcessor=JSON", "forceRequestBodyVariable=On", "requestBodyAccess=On",
 				// per-transaction rule and logging state, changed at any point of the (possibly anomalous) call sequence
+				"requestBodyLimit=1", "requestBodyLimit=3", "responseBodyLimit=1", "responseBodyLimit=5",
 				"ruleRemoveTargetById=9400;ARGS:x", "ruleRemoveTargetById=9400;ARGS:/^a/", "ruleRemoveTargetByTag=dyn;ARGS_GET", "ruleRemoveTargetByMsg=dynmsg;REQUEST_HEADERS:x-a",
 				"ruleRemoveById=9400", "ruleRemoveById=9000-9600", "ruleRemoveByTag=dyn", "ruleRemoveByMsg=dynmsg", "ruleEngine=DetectionOnly", "ruleEngine=Off", "ruleEngine=On",
 				"auditEngine=On", "auditLogParts=+E", "auditLogParts=-B", "debugLogLevel=9"}).Draw(t, "limctl")
@@ -588,6 +589,24 @@ func genC07(t *rapid.T) *C07Case {
 		chunked = append(chunked, call)
 	}
 	script = chunked
+	if c.Limits && rapid.IntRange(0, 2).Draw(t, "earlybody") == 0 {
+		// body bytes that arrive before the headers phase has run (a connector that forwards what it has), and more through
+		// a reader afterwards: a rule of that phase may lower the limit below what is already buffered
+		var early []Call
+		for _, call := range script {
+			switch call.Op {
+			case "p1":
+				early = append(early, Call{Op: rapid.SampledFrom([]string{"wreq", "rreq"}).Draw(t, "earlyreqop"), Data: []byte("a=EARLY-REQUEST-BODY")}, Call{Op: "rdr"}, call,
+					Call{Op: rapid.SampledFrom([]string{"rreq", "wreq"}).Draw(t, "latereqop"), Data: []byte(rapid.SampledFrom([]string{"", "&b=1", "&b=LATER-REQUEST-BODY"}).Draw(t, "latereq"))}, Call{Op: "rdr"})
+			case "p3":
+				early = append(early, Call{Op: rapid.SampledFrom([]string{"wresp", "rresp"}).Draw(t, "earlyrespop"), Data: []byte("EARLY-RESPONSE-BODY")}, call,
+					Call{Op: rapid.SampledFrom([]string{"rresp", "wresp"}).Draw(t, "laterespop"), Data: []byte(rapid.SampledFrom([]string{"", "x", "LATER-RESPONSE-BODY"}).Draw(t, "lateresp"))})
+			default:
+				early = append(early, call)
+			}
+		}
+		script = early
+	}
 	if rapid.IntRange(0, 2).Draw(t, "anomalous") == 0 || (c.Limits && rapid.Bool().Draw(t, "anomalous2")) {
 		nm := rapid.IntRange(1, 4).Draw(t, "nmutscript")
 		for i := 0; i < nm && len(script) > 1; i++ {
@@ -616,7 +635,7 @@ func genC07(t *rapid.T) *C07Case {
 				script = append(append(append([]Call(nil), rest[:k]...), mv), rest[k:]...)
 			case 4: // an extra body write or phase call anywhere
 				extra := rapid.SampledFrom([]Call{{Op: "wreq", Data: []byte("x=EXTRA-REQUEST-BYTES")}, {Op: "wresp", Data: []byte("EXTRA-RESPONSE-BYTES")},
-					{Op: "rreq", Data: []byte("y=1")}, {Op: "rresp", Data: []byte("zz")}, {Op: "p1"}, {Op: "p2"}, {Op: "p3", Code: 200}, {Op: "p4"}, {Op: "p5"}}).Draw(t, "extra")
+					{Op: "rreq", Data: []byte("y=1")}, {Op: "rresp", Data: []byte("zz")}, {Op: "rdr"}, {Op: "rdr"}, {Op: "rdrresp"}, {Op: "p1"}, {Op: "p2"}, {Op: "p3", Code: 200}, {Op: "p4"}, {Op: "p5"}}).Draw(t, "extra")
 				script = append(append(append([]Call(nil), script[:j]...), extra), script[j:]...)
 			case 5: // the handle is used after Close
 				script = append(append(append([]Call(nil), script[:j+1]...), Call{Op: "close"}), script[j+1:]...)
